@@ -14,6 +14,7 @@ package art
 //@   modifies nothing
 //@   ensures result != nil && fresh(result)
 //@   ensures lowerBound == "" && upperBound == "" && itValid(result) ==> curKey(result) == minKeyOf(t) && minKeyOf(t) <= maxKeyOf(t)
+//@   ensures result.apos == 0
 
 //@ func (*ART) IterReverseWithFlags
 //@   trusted
@@ -52,3 +53,28 @@ package art
 //@   ensures gone: (hdr.OldValue.idx == 4294967295 || hdr.OldValue.off == 4294967295) && (old(leafAt(ref(t.allocator), hdr.NodeAddr.idx, hdr.NodeAddr.off).flags) & 32767) & kv.persistentFlags == 0 ==>
 //@       leafAt(ref(t.allocator), hdr.NodeAddr.idx, hdr.NodeAddr.off).flags == 32768 && t.len == old(t.len) - 1 && t.size == old(t.size) - mathint(hdr.ValueLen) - mathint(leafAt(ref(t.allocator), hdr.NodeAddr.idx, hdr.NodeAddr.off).keyLen)
 //@   ensures older: !(hdr.OldValue.idx == 4294967295 || hdr.OldValue.off == 4294967295) ==> leafAt(ref(t.allocator), hdr.NodeAddr.idx, hdr.NodeAddr.off).flags == old(leafAt(ref(t.allocator), hdr.NodeAddr.idx, hdr.NodeAddr.off).flags) && t.len == old(t.len)
+
+// ---- the flag iterator as an abstract sequence with a ghost cursor (assumed: the tree walk itself is not verified) ---------
+// aLen/aKey/aFlags: the entries the iterator yields, in order; it.apos: index of the current entry.
+//@ ghost field Iterator.apos int
+//@ spec func aLen(it *Iterator) int
+//@ spec func aKey(it *Iterator, i int) []byte
+//@ spec func aFlags(it *Iterator, i int) kv.KeyFlags
+//@ func (*Iterator) Valid
+//@   trusted
+//@   modifies nothing
+//@   ensures result == (it.apos < aLen(it))
+//@ func (*Iterator) Key
+//@   trusted
+//@   bytes: key
+//@   modifies nothing
+//@   ensures result == aKey(it, it.apos)
+//@ func (*Iterator) Flags
+//@   trusted
+//@   modifies nothing
+//@   ensures result == aFlags(it, it.apos)
+//@ func (*Iterator) Next
+//@   trusted
+//@   modifies Iterator.apos of it
+//@   ensures result == nil ==> it.apos == old(it.apos) + 1
+//@   ensures result != nil ==> it.apos == old(it.apos)
